@@ -1,3 +1,3 @@
 From Coq Require Import List ZArith NArith ExtrOcamlBasic.
 From WV Require Import Gen.GenPreds Model.Server.
-Extraction "model.ml" step init map_fds map_len gen_chan_readable gen_chan_writable gen_hw_flush gen_hw_after gen_maint_cutoff gen_maint_test gen_srv_readable gen_poll_r gen_poll_w gen_poll_e N.add N.mul.
+Extraction "model.ml" step init map_fds map_len gen_chan_readable gen_chan_writable gen_hw_flush gen_hw_after gen_maint_cutoff gen_maint_test gen_srv_readable gen_poll_r gen_poll_w gen_poll_e gen_poll_dispatch gen_poll2_reg gen_readwrite N.add N.mul.
